@@ -51,8 +51,18 @@ def gen_case(rng, i=None, pruning=False, allow_none=True):
         # pandas' object hashtable (Series.unique) compares strings as C strings and so
         # merges strings that differ only after an embedded NUL: not tdda's doing
         xs = [x.replace('\x00', '\x01') if x is not None else x for x in xs]
-    return {'xs': xs, 'form': form, 'kw': kw, 'size': size, 'seed': seed, 'pools': pools,
+    case = {'xs': xs, 'form': form, 'kw': kw, 'size': size, 'seed': seed, 'pools': pools,
             'prng': rng.randrange(2 ** 31)}
+    if rng.random() < 0.35:
+        # frequency dictionaries may carry entries with count 0: strings that were NOT supplied
+        present = set(x for x in xs if x is not None)
+        zs = []
+        for _ in range(rng.randint(1, 3)):
+            z = S.rstr(rng, alph, 1, 6) + rng.choice(['', 'Z', '9', '-'])
+            if z not in present and z.strip() not in present:
+                zs.append(z)
+        case['zero_count'] = zs
+    return case
 
 
 def build_input(case, order=None):
@@ -65,8 +75,13 @@ def build_input(case, order=None):
         return xs
     if form == 'dict':
         d = {}
+        zs = list(case.get('zero_count') or [])
+        for z in zs[:1]:
+            d[z] = 0                       # one zero-count entry first, the others last
         for x in xs:
             d[x] = d.get(x, 0) + 1
+        for z in zs[1:]:
+            d.setdefault(z, 0)
         return d
     import numpy as np
     import pandas as pd
